@@ -597,4 +597,199 @@ def op_m_rw_operator_pattern():
     return _rewrite(m, [pattern.RewriteRule(target, repl)])
 
 
+# ------------------------------------------------------------------------------------------ same op types at different
+# opset versions (ops whose signature changed), all on constants so that the constant folder has to evaluate them:
+# any process-wide cache keyed by less than (domain, op, version) is hit with conflicting keys by these histories.
+
+def _f32(name, arr):
+    return numpy_helper.from_array(np.array(arr, dtype=np.float32), name)
+
+
+def _opt(m):
+    import onnxscript.optimizer
+    return {"model": _ser(onnxscript.optimizer.optimize(m))}
+
+
+def _vmodel(nodes, inits, in_shape, out_shape, opset):
+    return _model(nodes, [_vi("x", in_shape)], [_vi("y", out_shape)], inits=inits, opset=opset, ir_version=8)
+
+
+def _axes_model_old(opset, k=1.0):
+    """axes as attributes (Squeeze/Unsqueeze-11, ReduceSum-11, ReduceMax-11/12)"""
+    c = _f32("c", [[1.0 * k, 5.0], [7.0, 2.0]])
+    nodes = [helper.make_node("ReduceSum", ["c"], ["r"], axes=[0], keepdims=1),
+             helper.make_node("Squeeze", ["r"], ["s"], axes=[0]),
+             helper.make_node("Unsqueeze", ["s"], ["u"], axes=[0]),
+             helper.make_node("ReduceMax", ["c"], ["mx"], axes=[1], keepdims=0),
+             helper.make_node("Add", ["u", "mx"], ["um"]),
+             helper.make_node("Add", ["x", "um"], ["y"])]
+    return _vmodel(nodes, [c], [3, 2], [3, 2], opset)
+
+
+def _axes_model_new(opset, k=1.0):
+    """axes as inputs (Squeeze/Unsqueeze/ReduceSum-13; ReduceMax-18 when opset >= 18)"""
+    c = _f32("c", [[1.0 * k, 5.0], [7.0, 2.0]])
+    inits = [c, _init("ax0", [0]), _init("ax1", [1])]
+    rmax = (helper.make_node("ReduceMax", ["c", "ax1"], ["mx"], keepdims=0) if opset >= 18
+            else helper.make_node("ReduceMax", ["c"], ["mx"], axes=[1], keepdims=0))
+    nodes = [helper.make_node("ReduceSum", ["c", "ax0"], ["r"], keepdims=1),
+             helper.make_node("Squeeze", ["r", "ax0"], ["s"]),
+             helper.make_node("Unsqueeze", ["s", "ax0"], ["u"]),
+             rmax,
+             helper.make_node("Add", ["u", "mx"], ["um"]),
+             helper.make_node("Add", ["x", "um"], ["y"])]
+    return _vmodel(nodes, inits, [3, 2], [3, 2], opset)
+
+
+def op_m_opt_axes_v11():
+    return _opt(_axes_model_old(11))
+
+
+def op_m_opt_axes_v12():
+    return _opt(_axes_model_old(12, k=3.0))
+
+
+def op_m_opt_axes_v13():
+    return _opt(_axes_model_new(13, k=2.0))
+
+
+def op_m_opt_axes_v18():
+    return _opt(_axes_model_new(18))
+
+
+def _misc_model_old(opset):
+    """Clip-6 (min/max attributes), Pad-2 (pads attribute), Slice-1 (attributes), Split-2/11 (split attribute)"""
+    c = _f32("c", [[-3.0, 0.5, 4.0, 9.0], [1.0, 2.0, 3.0, 8.0]])
+    nodes = [helper.make_node("Clip", ["c"], ["cl"], min=0.0, max=5.0),
+             helper.make_node("Pad", ["cl"], ["pd"], mode="constant", pads=[0, 1, 0, 1], value=1.0),
+             helper.make_node("Slice", ["pd"], ["sl"], axes=[1], starts=[1], ends=[5]),
+             helper.make_node("Split", ["sl"], ["sa", "sb"], axis=1, split=[1, 3]),
+             helper.make_node("Concat", ["sb", "sa"], ["cc"], axis=1),
+             helper.make_node("Add", ["x", "cc"], ["y"])]
+    return _vmodel(nodes, [c], [2, 4], [2, 4], opset)
+
+
+def _misc_model_new(opset):
+    """Clip-11+ (inputs), Pad-11+ (inputs), Slice-10+ (inputs), Split-13+ (split input)"""
+    c = _f32("c", [[-3.0, 0.5, 4.0, 9.0], [1.0, 2.0, 3.0, 8.0]])
+    inits = [c, _f32("lo", 0.0), _f32("hi", 5.0), _init("pads", [0, 1, 0, 1]), _f32("pv", 1.0),
+             _init("st", [1]), _init("en", [5]), _init("axs", [1]), _init("spl", [1, 3])]
+    nodes = [helper.make_node("Clip", ["c", "lo", "hi"], ["cl"]),
+             helper.make_node("Pad", ["cl", "pads", "pv"], ["pd"], mode="constant"),
+             helper.make_node("Slice", ["pd", "st", "en", "axs"], ["sl"]),
+             helper.make_node("Split", ["sl", "spl"], ["sa", "sb"], axis=1),
+             helper.make_node("Concat", ["sb", "sa"], ["cc"], axis=1),
+             helper.make_node("Add", ["x", "cc"], ["y"])]
+    return _vmodel(nodes, inits, [2, 4], [2, 4], opset)
+
+
+def op_m_opt_misc_v9():
+    return _opt(_misc_model_old(9))
+
+
+def op_m_opt_misc_v13():
+    return _opt(_misc_model_new(13))
+
+
+def op_m_opt_misc_v18():
+    return _opt(_misc_model_new(18))
+
+
+def _func_model(body_kind, opset=18):
+    """a model-local function custom::F with the same identifier but different bodies"""
+    if body_kind == "a":
+        fnodes = [helper.make_node("Unsqueeze", ["a", "ax"], ["o"])]
+    else:
+        fnodes = [helper.make_node("Unsqueeze", ["a", "ax"], ["t"]), helper.make_node("Neg", ["t"], ["o"])]
+    f = helper.make_function("custom", "F", ["a", "ax"], ["o"], fnodes, opset_imports=[helper.make_opsetid("", opset)])
+    nodes = [helper.make_node("F", ["c", "ax0"], ["u"], domain="custom"), helper.make_node("Add", ["x", "u"], ["y"])]
+    g = helper.make_graph(nodes, "g", [_vi("x", [3, 2])], [_vi("y", [3, 2])], initializer=[_f32("c", [4.0, 6.0]), _init("ax0", [0])])
+    return helper.make_model(g, opset_imports=[helper.make_opsetid("", opset), helper.make_opsetid("custom", 1)], ir_version=8, functions=[f])
+
+
+def op_m_opt_func_a():
+    return _opt(_func_model("a"))
+
+
+def op_m_opt_func_b():
+    return _opt(_func_model("b"))
+
+
+def op_m_opt_func_a_v13():
+    return _opt(_func_model("a", opset=13))
+
+
+def op_m_rw_default_v13():
+    """the default rule set on the graph of m_rw_default at another opset"""
+    from onnxscript import rewriter
+    nodes = [helper.make_node("Reshape", ["x", "s1"], ["t"]),
+             helper.make_node("Reshape", ["t", "s2"], ["u"]),
+             helper.make_node("Transpose", ["u"], ["v"], perm=[1, 0]),
+             helper.make_node("Transpose", ["v"], ["w"], perm=[1, 0]),
+             helper.make_node("Relu", ["w"], ["r1"]),
+             helper.make_node("Relu", ["r1"], ["y"])]
+    m = _model(nodes, [_vi("x", [2, 3, 4])], [_vi("y", [4, 6])], inits=[_init("s1", [6, 4]), _init("s2", [4, 6])],
+               vi=[_vi("t", [6, 4]), _vi("u", [4, 6]), _vi("v", [6, 4]), _vi("w", [4, 6]), _vi("r1", [4, 6])], opset=13, ir_version=8)
+    return {"model": _ser(rewriter.rewrite(m))}
+
+
+def op_m_convert_up_c():
+    """the model of m_convert_up to another target version"""
+    from onnxscript import version_converter
+    m = _convert_model(18)
+    version_converter.convert_version(m, target_version=23)
+    return {"model": _ser(m)}
+
+
+# scripts: the same body against different opset versions / the same custom domain at different versions
+# (Opset objects are process-wide singletons per (class, domain, version))
+def op_s_opset15():
+    from onnxscript import opset15 as op15
+
+    @script(default_opset=op15)
+    def versioned(x: FLOAT[None]) -> FLOAT[None]:
+        return op15.Squeeze(op15.Unsqueeze(x, [0]), [0]) + op15.ReduceSum(x, keepdims=1)
+
+    return _script_result(versioned)
+
+
+def op_s_opset18():
+    @script(default_opset=op)
+    def versioned(x: FLOAT[None]) -> FLOAT[None]:
+        return op.Squeeze(op.Unsqueeze(x, [0]), [0]) + op.ReduceSum(x, keepdims=1)
+
+    return _script_result(versioned)
+
+
+def op_s_domain_v1():
+    from onnxscript.values import Opset
+    dom = Opset("c14.custom", 1)
+
+    @script(dom, default_opset=op)
+    def twice(x: FLOAT[None]) -> FLOAT[None]:
+        return x + x
+
+    @script(default_opset=op)
+    def use(x: FLOAT[None]) -> FLOAT[None]:
+        return twice(x) * ALPHA
+
+    return _script_result(use)
+
+
+def op_s_domain_v2():
+    from onnxscript.values import Opset
+    dom = Opset("c14.custom", 2)
+
+    @script(dom, default_opset=op)
+    def twice(x: FLOAT[None]) -> FLOAT[None]:
+        return x * 2.0
+
+    @script(default_opset=op)
+    def use(x: FLOAT[None]) -> FLOAT[None]:
+        return twice(x) * ALPHA
+
+    return _script_result(use)
+
+
+
 OPS = {k[3:]: v for k, v in sorted(globals().items()) if k.startswith("op_") and callable(v)}
